@@ -62,6 +62,16 @@ pub fn powi_model(base: f64, exponent: i32) -> f64 {
     }
 }
 
+/// Exact model of `f64::exp2` on non-negative integral arguments; unconstrained otherwise.
+#[cfg(kani)]
+pub fn exp2_model(x: f64) -> f64 {
+    if x >= 0.0 && x <= 4294967295.0 && x == (x as u32) as f64 {
+        pow2(x as u32)
+    } else {
+        kani::any()
+    }
+}
+
 pub fn pow2(e: u32) -> f64 {
     if e <= 1023 {
         f64::from_bits(((1023 + e as u64) << 52) as u64)
@@ -93,9 +103,9 @@ pub fn ev_hex<S: Source>(s: &mut S) {
     observe!(has_exponent && exponent < 64 && mantissa > (u64::MAX >> exponent), "mantissa * 2^e beyond u64 range");
     claim!(s, value.to_bits() == expected.to_bits(), "hex literal value is mantissa * 2^exponent");
 }
-proof!(#[kani::unwind(34)] #[kani::stub(f64::powi, powi_model)] c08_ev_hex => ev_hex);
+proof!(#[kani::unwind(34)] #[kani::stub(f64::powi, powi_model)] #[kani::stub(f64::exp2, exp2_model)] c08_ev_hex => ev_hex);
 // same body with every default Kani check (overflow, unwrap, index): panic-freedom for C12
-proof!(#[kani::unwind(34)] #[kani::stub(f64::powi, powi_model)] c12_hex_no_panic => ev_hex);
+proof!(#[kani::unwind(34)] #[kani::stub(f64::powi, powi_model)] #[kani::stub(f64::exp2, exp2_model)] c12_hex_no_panic => ev_hex);
 
 /// `BinaryNumber::compute_value` and `DecimalNumber::compute_value` return the stored value.
 pub fn ev_bin_dec<S: Source>(s: &mut S) {
